@@ -170,6 +170,9 @@ func (e *FieldExpression) Evaluate(ctx *Context, input system.Collection) (syste
 		// So, it can be cast to a system type. Otherwise, a field is being accessed that
 		// shouldn't be accessed, so the error is returned.
 		if field.Kind() != protoreflect.MessageKind {
+			if hasNoValue(message) {
+				continue // a primitive that carries only extensions has no value
+			}
 			primitive, err := system.From(message)
 			if err != nil {
 				return nil, err
@@ -207,6 +210,9 @@ func (e *FieldExpression) Evaluate(ctx *Context, input system.Collection) (syste
 		content := reflect.Get(field).List()
 		for i := 0; i < content.Len(); i++ { // flatten out list
 			result := content.Get(i).Message().Interface()
+			if isNoValueMarker(result) {
+				continue
+			}
 			unwrapped, err := unwrap(result)
 			if err != nil {
 				return nil, err
@@ -215,6 +221,31 @@ func (e *FieldExpression) Evaluate(ctx *Context, input system.Collection) (syste
 		}
 	}
 	return output, nil
+}
+
+// primitiveHasNoValueURL is the extension google/fhir adds to the proto of a
+// primitive that has extensions but no value. It is a storage artefact, not
+// part of the FHIR element.
+const primitiveHasNoValueURL = "https://g.co/fhir/StructureDefinition/primitiveHasNoValue"
+
+func isNoValueMarker(msg proto.Message) bool {
+	ext, ok := msg.(*dtpb.Extension)
+	return ok && ext.GetUrl().GetValue() == primitiveHasNoValueURL
+}
+
+func hasNoValue(msg proto.Message) bool {
+	reflect := msg.ProtoReflect()
+	field := reflect.Descriptor().Fields().ByName("extension")
+	if field == nil || !field.IsList() || field.Kind() != protoreflect.MessageKind {
+		return false
+	}
+	list := reflect.Get(field).List()
+	for i := 0; i < list.Len(); i++ {
+		if isNoValueMarker(list.Get(i).Message().Interface()) {
+			return true
+		}
+	}
+	return false
 }
 
 var nonEvaluableFields = []string{
